@@ -22,6 +22,10 @@ from .pyvc import (Sym, SList, SGList, SDict, SObj, SArr, SBuf, DType, IRaise, I
 AXIOMS = {}
 
 
+def LibMethod(fn, name=None):
+    return Summary(fn, name, contract=False)
+
+
 def axiom(name, text):
     AXIOMS[name] = text
 
@@ -448,7 +452,7 @@ def method(interp, obj, name, default=MISSING):
         return dict_attr(interp, obj, name)
     if isinstance(obj, Sym):
         if name == "astype":
-            return Summary(lambda it, a, k: obj)
+            return LibMethod(lambda it, a, k: obj)
         if name in ("real",):
             return obj
         if name == "dtype":
@@ -474,19 +478,19 @@ def arr_attr(interp, a, name, default):
             r = arr_copy(it, a, kind, "astype")
             r.dtype_name = dtype_name(dt, a.dtype_name)
             return r
-        return Summary(astype, "astype")
+        return LibMethod(astype, "astype")
     if name == "copy":
-        return Summary(lambda it, args, kw: arr_copy(it, a, None, "copy"), "copy")
+        return LibMethod(lambda it, args, kw: arr_copy(it, a, None, "copy"), "copy")
     if name == "flatten" or name == "ravel":
-        return Summary(lambda it, args, kw: arr_copy(it, a, None, "flatten"), name)
+        return LibMethod(lambda it, args, kw: arr_copy(it, a, None, "flatten"), name)
     if name == "tolist":
-        return Summary(lambda it, args, kw: it.new_list(it.iterate(a)), name)
+        return LibMethod(lambda it, args, kw: it.new_list(it.iterate(a)), name)
     if name == "sum":
-        return Summary(lambda it, args, kw: np_sum(it, [a], kw), "sum")
+        return LibMethod(lambda it, args, kw: np_sum(it, [a], kw), "sum")
     if name == "fill":
         def fill(it, args, kw):
             setitem(it, a, slice(None, None, None), args[0])
-        return Summary(fill, "fill")
+        return LibMethod(fill, "fill")
     if name == "T":
         return a
     if name == "ctypes":
@@ -553,7 +557,7 @@ def list_attr(interp, lst, name):
     table = {"append": append, "extend": extend, "pop": pop, "index": index,
              "insert": insert, "copy": copy}
     if name in table:
-        return Summary(table[name], "list." + name)
+        return LibMethod(table[name], "list." + name)
     raise OutsideSubset("list attribute %s" % name)
 
 
@@ -631,7 +635,7 @@ def dict_attr(interp, d, name):
     table = {"get": get, "pop": pop, "items": items, "keys": keys, "values": values,
              "copy": copy, "update": update, "setdefault": setdefault}
     if name in table:
-        return Summary(table[name], "dict." + name)
+        return LibMethod(table[name], "dict." + name)
     raise OutsideSubset("dict attribute %s" % name)
 
 
